@@ -281,6 +281,10 @@ func (node *Node) ProcessBlock(ctx context.Context, block wire.Block) error {
 		// Remove from unconfirmed. Only matching are in unconfirmed.
 		inUnconfirmed, unconfirmed = removeHash(*txid, unconfirmed)
 
+		// Remove from the tx trackers before the mempool forgets the tx, or a tracker could
+		// request it again while this block is still being processed.
+		node.removeFromTrackers(ctx, *txid)
+
 		// Remove from mempool
 		inMemPool := false
 		if node.state.IsReady() {
